@@ -166,18 +166,29 @@ def generate_jaqal_block(statement, depth, indent_first_line):
         output += "<\n"
     else:
         output += "{\n"
+    output += generate_jaqal_block_statements(statement, statement.parallel, depth)
+    output += "\t" * depth
+    if statement.parallel:
+        output += ">\n"
+    else:
+        output += "}\n"
+    return output
+
+
+def generate_jaqal_block_statements(statement, parallel, depth):
+    output = ""
     for gate in statement:
         if isinstance(gate, GateStatement):
             output += generate_jaqal_gate(gate, depth + 1)
         elif isinstance(gate, LoopStatement):
             output += generate_jaqal_loop(gate, depth + 1)
         elif isinstance(gate, BlockStatement):
-            output += generate_jaqal_block(gate, depth + 1, True)
-    output += "\t" * depth
-    if statement.parallel:
-        output += ">\n"
-    else:
-        output += "}\n"
+            if not gate.subcircuit and gate.parallel == parallel:
+                # Jaqal cannot nest a block directly in a block of the same
+                # kind, and doing so changes nothing: write its statements here.
+                output += generate_jaqal_block_statements(gate, parallel, depth)
+            else:
+                output += generate_jaqal_block(gate, depth + 1, True)
     return output
 
 
